@@ -34,12 +34,11 @@ ASSUMPTIONS = [
 ]
 
 NAME = "k"
-_TMP = re.compile(r"[0-9a-f]{32}")
 
 
 def norm(rel, aid):
     # temporary names are unique per writer and differ from run to run
-    return _TMP.sub("A%d" % aid, rel)
+    return fsseam.norm_rel(rel, "A%d" % aid)
 
 
 def _crop(d):
